@@ -15,6 +15,8 @@ class TcpClient(object):
         self.host = host
         self.port = port
         self.buffer = []
+        self.current_msg = ""
+        self.msg_stop = False
         self.socket = None
         self.datatype = datatype
         if self.datatype not in ["raw", "beast", "skysense"]:
@@ -45,18 +47,20 @@ class TcpClient(object):
         """
         messages = []
 
-        msg_stop = False
-        self.current_msg = ""
+        # current_msg and msg_stop are kept between calls, a message can be
+        # split over two reads
         for b in self.buffer:
             if b == 59:
-                msg_stop = True
+                self.msg_stop = True
                 ts = time.time()
                 messages.append([self.current_msg, ts])
             if b == 42:
-                msg_stop = False
+                self.msg_stop = False
                 self.current_msg = ""
 
-            if (not msg_stop) and (48 <= b <= 57 or 65 <= b <= 70 or 97 <= b <= 102):
+            if (not self.msg_stop) and (
+                48 <= b <= 57 or 65 <= b <= 70 or 97 <= b <= 102
+            ):
                 self.current_msg = self.current_msg + chr(b)
 
         self.buffer = []
